@@ -370,7 +370,7 @@ func (g *Gen) composeArgs() ([]int64, []string) {
 	neg := int64(g.R.N(2))
 	var coef []byte
 	var exp int64
-	switch g.R.N(8) {
+	switch g.R.N(9) {
 	case 0: // empty or zero bytes
 		coef = make([]byte, g.R.N(5))
 		exp = int64(int32(g.R.U64()))
@@ -389,6 +389,23 @@ func (g *Gen) composeArgs() ([]int64, []string) {
 		c.Mul(c, pow10big(k))
 		coef = c.Bytes()
 		exp = int64(g.R.Range(-6176-k-2, 6111-k+2))
+	case 6: // a representable value right next to a power of two: bit-length thresholds
+		n := g.R.Range(60, 4200)
+		t := new(big.Int).Lsh(big.NewInt(1), uint(n))
+		k := ref.NumDigits(t) - g.R.Range(1, 34)
+		if k < 0 {
+			k = 0
+		}
+		m := new(big.Int).Quo(t, pow10big(k))
+		if g.R.P(1, 2) {
+			m.Add(m, big.NewInt(1)) // just above 2^n
+		}
+		c := new(big.Int).Mul(m, pow10big(k))
+		coef = c.Bytes()
+		exp = int64(g.R.Range(-6176-k+g.R.N(3), 6111-k))
+		if g.R.P(1, 2) {
+			exp = int64(-k + g.R.Range(-40, 40))
+		}
 	case 4: // extremes of the exponent
 		c := g.coef()
 		coef = c.Bytes()
